@@ -59,6 +59,8 @@ def confirm(seed):
     res['demo_without'] = rc0
     fresh_wt()
     rc, out = sh(['git', 'apply', os.path.join(seed, 'patch.diff')], cwd=WT)
+    if rc != 0:
+        rc, out = sh(['git', 'apply', '--3way', os.path.join(seed, 'patch.diff')], cwd=WT)
     res['apply'] = rc
     rcb, outb = sh("go build ./pkg/... && go build -ldflags=-checklinkname=0 ./cmd/... && go test -vet=off -count=1 -run '^$' ./... 2>&1 | grep -v 'build failed\\|no test files\\|^ok' | head -5", cwd=WT)
     res['build'] = rcb
@@ -86,6 +88,8 @@ def detect(seed, props):
     seed = os.path.abspath(seed)
     fresh_wt()
     rc, out = sh(['git', 'apply', os.path.join(seed, 'patch.diff')], cwd=WT)
+    if rc != 0:
+        rc, out = sh(['git', 'apply', '--3way', os.path.join(seed, 'patch.diff')], cwd=WT)
     if rc != 0:
         print('patch does not apply', out)
         return
